@@ -882,6 +882,13 @@ class Flow:
             if any(isinstance(x, ast.Starred) for x in e.elts):
                 return None
             return [(x, fn, bind) for x in e.elts]
+        if isinstance(e, ast.BinOp) and isinstance(e.op, ast.Add):
+            # concatenation: the known tail (an unknown prefix is dropped)
+            r = self.sequence(e.right, fn, bind, depth + 1)
+            if r is None:
+                return None
+            l = self.sequence(e.left, fn, bind, depth + 1)
+            return (l or []) + r
         if isinstance(e, ast.Name) and fn is not None:
             for sc in self._scope_chain(fn):
                 ds = self.defs(sc.node).get(e.id)
